@@ -360,6 +360,10 @@ pub enum Op {
     PfOwner {
         owner: String,
     },
+    /// arbitrary JSON sent to the engine (adversarial address arguments that the typed variants cannot express)
+    RawEngine {
+        json: String,
+    },
     // ---- environment (collateral token directly)
     SetAllowance {
         #[serde(with = "ustr")]
@@ -404,6 +408,7 @@ impl Op {
             Op::AppendPrice { .. } => "AppendPrice",
             Op::AppendMulti { .. } => "AppendMulti",
             Op::PfOwner { .. } => "PfOwner",
+            Op::RawEngine { .. } => "RawEngine",
             Op::SetAllowance { .. } => "SetAllowance",
             Op::Transfer { .. } => "Transfer",
         }
@@ -421,6 +426,7 @@ impl Op {
             | Op::UpdatePauser { .. }
             | Op::AddWhitelist { .. }
             | Op::RemoveWhitelist { .. }
+            | Op::RawEngine { .. }
             | Op::SetPause { .. } => Target::Engine,
             Op::VammConfig { vamm, .. }
             | Op::VammOwner { vamm, .. }
@@ -548,6 +554,7 @@ pub fn op_to_json(
         Op::AppendMulti { vamm, prices, timestamps } => json!({"append_multiple_price": {
             "key": key(*vamm), "prices": prices, "timestamps": timestamps}}),
         Op::PfOwner { owner } => json!({"update_owner": {"owner": r(owner)}}),
+        Op::RawEngine { json } => serde_json::from_str(json).unwrap_or(Value::Null),
         Op::SetAllowance { .. } | Op::Transfer { .. } => Value::Null, // handled by the executor
     }
 }
